@@ -136,9 +136,10 @@ Definition b64url_decode (cs : bytes) : option bytes := b64_dec true cs.
 
 (* ---------- round trip ---------- *)
 
-(* let lia see through N./ and N.mod by constants (zify maps them to Z.quot / Z.rem);
-   local, so importers keep the default lia *)
-#[local] Ltac Zify.zify_post_hook ::= Z.to_euclidean_division_equations.
+(* lia that sees through N./ and N.mod by constants (zify maps them to Z.quot / Z.rem).
+   Deliberately NOT done by redefining Zify.zify_post_hook: that redefinition leaks to every
+   importer even when marked #[local] (Coq 8.16). *)
+Local Ltac dlia := zify; Z.to_euclidean_division_equations; lia.
 
 Lemma b64_val_sym url v : v < 64 -> b64_val url (b64_sym url v) = Some v.
 Proof.
@@ -174,7 +175,7 @@ Lemma b64_dec4_enc url a b c :
                (b64_sym url ((b mod 16) * 4 + c / 64)) (b64_sym url (c mod 64)) = Some [a; b; c].
 Proof.
   intros Ha Hb Hc. unfold b64_dec4.
-  rewrite !b64_val_sym by lia. repeat f_equal; lia.
+  rewrite !b64_val_sym by dlia. repeat f_equal; dlia.
 Qed.
 
 Lemma b64_dec3_enc url a b :
@@ -183,9 +184,9 @@ Lemma b64_dec3_enc url a b :
                (b64_sym url ((b mod 16) * 4)) = Some [a; b].
 Proof.
   intros Ha Hb. unfold b64_dec3.
-  rewrite !b64_val_sym by lia.
-  destruct (N.eqb_spec ((b mod 16 * 4) mod 4) 0) as [_|Hn]; [|lia].
-  repeat f_equal; lia.
+  rewrite !b64_val_sym by dlia.
+  destruct (N.eqb_spec ((b mod 16 * 4) mod 4) 0) as [_|Hn]; [|dlia].
+  repeat f_equal; dlia.
 Qed.
 
 Lemma b64_dec2_enc url a :
@@ -193,9 +194,9 @@ Lemma b64_dec2_enc url a :
   b64_dec2 url (b64_sym url (a / 4)) (b64_sym url ((a mod 4) * 16)) = Some [a].
 Proof.
   intros Ha. unfold b64_dec2.
-  rewrite !b64_val_sym by lia.
-  destruct (N.eqb_spec ((a mod 4 * 16) mod 16) 0) as [_|Hn]; [|lia].
-  repeat f_equal; lia.
+  rewrite !b64_val_sym by dlia.
+  destruct (N.eqb_spec ((a mod 4 * 16) mod 16) 0) as [_|Hn]; [|dlia].
+  repeat f_equal; dlia.
 Qed.
 
 (* a full quad whose 4th symbol is not '=' decodes strictly, whatever follows *)
@@ -238,13 +239,13 @@ Proof.
   - rewrite andb_true_r in H. apply andb_true_iff in H as [Ha Hb].
     apply is_byte_lt in Ha, Hb.
     cbn [b64_enc]. destruct pad; cbn [b64_dec].
-    + unfold b64_dec_last4. rewrite N.eqb_refl, b64_sym_not_pad by lia.
+    + unfold b64_dec_last4. rewrite N.eqb_refl, b64_sym_not_pad by dlia.
       apply b64_dec3_enc; assumption.
-    + rewrite b64_sym_not_pad by lia. apply b64_dec3_enc; assumption.
+    + rewrite b64_sym_not_pad by dlia. apply b64_dec3_enc; assumption.
   - apply andb_true_iff in H as [Ha H]. apply andb_true_iff in H as [Hb H].
     apply andb_true_iff in H as [Hc Hr].
     apply is_byte_lt in Ha, Hb, Hc.
-    cbn [b64_enc]. rewrite b64_dec_quad by (apply b64_sym_not_pad; lia).
+    cbn [b64_enc]. rewrite b64_dec_quad by (apply b64_sym_not_pad; dlia).
     rewrite b64_dec4_enc by assumption. rewrite (IH Hr). reflexivity.
 Qed.
 
